@@ -93,6 +93,9 @@ func (c09) Gen(rng *rand.Rand, tier string, k int) *Case {
 	}
 	c.Lens = nil
 	ncalls := 2 + rng.Intn(3)
+	if deepTier && rng.Intn(3) == 0 {
+		ncalls = 5 + rng.Intn(4) // a worker pool's worth of calls alive at once
+	}
 	for i := 0; i < ncalls; i++ {
 		n := genLen(rng, w, 80)
 		if rng.Intn(3) > 0 {
